@@ -7,6 +7,7 @@
 package jsonschema
 
 import (
+	"errors"
 	"fmt"
 	"log/slog"
 	"maps"
@@ -97,6 +98,10 @@ func For[T any](opts *ForOptions) (*Schema, error) {
 
 // ForType is like [For], but takes a [reflect.Type]
 func ForType(t reflect.Type, opts *ForOptions) (*Schema, error) {
+	if t == nil {
+		// reflect.TypeOf returns nil for a nil interface value.
+		return nil, errors.New("ForType: nil type")
+	}
 	if opts == nil {
 		opts = &ForOptions{}
 	}
